@@ -47,7 +47,8 @@ def showOptZ : Option StampZ → String
   | some t => showStampZ t ++ " " ++ showFloat (toAbsG t : Float)
 
 /-- `toAbsTime` indexes `__day_per_month[m - 1]` for `m < month`: an IndexError from month 14 on -/
-def absErr (ts : List StampZ) (k : String) : String := if ts.any (·.month > 13) then "err:index" else k
+def absErr (ts : List StampZ) (k : String) : String :=
+  if ts.any (fun t => (toAbsGE (α := Float) t).isNone) then "err:index" else k
 
 def stampZ? (l : List String) : Option (StampZ × List String) :=
   match l with
